@@ -25,15 +25,16 @@ EXTENDS Integers, Sequences, FiniteSets, TLC, Json
 CONSTANTS EmitJson,
           AllowTruncFault   \* include the injected write failure after the truncating open (known finding)
 
-Priors   == {"absent", "own", "older", "garbage", "dir", "parentfile"}
+Priors   == {"absent", "own", "ownnoop", "older", "garbage", "dir", "parentfile"}   \* ownnoop: own output written with -fmt noop
+Mods     == {"tidy", "stale"}   \* stale: go.mod lacks a requirement the go command could add if it were allowed to write
 OutModes == {"stdout", "file", "newdir"}        \* newdir: -out below directories that do not exist yet
 ArgKinds == {"ok", "ok2", "missing1", "missing2", "notiface2", "badalias", "none"}
 Faults   == {"none", "stdoutfull", "write"}
 
 (* scenarios that make sense together *)
 Scenarios ==
-    { [prior |-> p, rm |-> r, out |-> o, args |-> a, fault |-> f] :
-        p \in Priors, r \in BOOLEAN, o \in OutModes, a \in ArgKinds, f \in Faults }
+    { [prior |-> p, rm |-> r, out |-> o, args |-> a, fault |-> f, mod |-> m] :
+        p \in Priors, r \in BOOLEAN, o \in OutModes, a \in ArgKinds, f \in Faults, m \in Mods }
 
 Sane(s) ==
     /\ (s.out = "stdout") => (s.prior = "absent" /\ ~s.rm /\ s.fault \in {"none", "stdoutfull"})
@@ -42,6 +43,8 @@ Sane(s) ==
     /\ (s.out = "file") => s.prior # "parentfile"
     /\ (s.fault = "write") => AllowTruncFault
     /\ (s.fault # "none") => s.args \in {"ok", "ok2"}
+    /\ (s.mod = "stale") => (s.prior = "absent" /\ s.fault = "none" /\ s.args = "ok")
+    /\ (s.prior = "ownnoop") => (s.out = "file" /\ s.args \in {"ok", "ok2"})
 
 VARIABLES sc,        \* the scenario
           pc,        \* control point of run()
@@ -83,7 +86,8 @@ RemoveOut ==
     /\ UNCHANGED <<sc, dirsMade, srcOnStdout, wrote, touchedOther>>
 
 (* the package loads unless a stale or garbled .go file is still in it *)
-Loadable == ~(InPlaceGo /\ sc.out = "file" /\ outSt = "prior" /\ sc.prior \in {"older", "garbage"})
+Loadable == /\ ~(InPlaceGo /\ sc.out = "file" /\ outSt = "prior" /\ sc.prior \in {"older", "garbage"})
+            /\ sc.mod = "tidy"
 
 Load ==
     /\ pc = "load"
@@ -145,7 +149,7 @@ AllOrNothing ==
     (Done /\ exit # 0) =>
         /\ stderr # ""
         /\ srcOnStdout = "none"
-        /\ \/ outSt = "prior" /\ sc.prior \in {"own", "older", "garbage"}        \* byte-for-byte untouched
+        /\ \/ outSt = "prior" /\ sc.prior \in {"own", "ownnoop", "older", "garbage"}  \* byte-for-byte untouched
            \/ outSt = "dir" /\ sc.prior = "dir"
            \/ outSt = "absent" /\ (sc.prior \in {"absent", "parentfile"} \/ sc.rm) \* nothing there before, or -rm: just gone
 (* C17: on success exactly the complete file, once; parents created *)
@@ -163,7 +167,7 @@ Terminates == <>Done
 (* C15 (second half): with -rm the outcome does not depend on the prior      *)
 (* content: success whenever the same scenario with prior = absent succeeds  *)
 RmMakesPriorIrrelevant ==
-    (Done /\ sc.rm /\ sc.out = "file" /\ sc.prior \in {"own", "older", "garbage"} /\ sc.fault = "none" /\ sc.args \in {"ok", "ok2"}) => (exit = 0 /\ outSt = "new")
+    (Done /\ sc.rm /\ sc.out = "file" /\ sc.prior \in {"own", "ownnoop", "older", "garbage"} /\ sc.fault = "none" /\ sc.args \in {"ok", "ok2"}) => (exit = 0 /\ outSt = "new")
 
 Emit == (EmitJson /\ Done) =>
           PrintT("CLI " \o ToJson([sc |-> sc, exit |-> exit, outSt |-> outSt, srcOnStdout |-> srcOnStdout, stderr |-> stderr,
